@@ -39,7 +39,7 @@ CHECKS = {
             "constraints and compared with the specification and a brand-new evaluator; all derivations of ambiguous words are "
             "evaluated in both orders by one evaluator; every evaluate_individual return of real searches (two runs per spec "
             "object, nested quantifiers, computed repetitions) is compared with a fresh evaluator and validated by Trace_Eval",
-            "bounded: histories of 5 operations (35% sample quick, all thorough), 3 ambiguous specs, 8 / 48 search runs; failing "
+            "bounded: histories of <= 5 operations (35% sample, quick) / every history of <= 7 operations (312,500, thorough), 3 ambiguous specs, 12 / 240 search runs; failing "
             "parts compared by position and constraint kind",
             "TLA+ model (TLC exhaustive) + TLC-enumerated histories replayed into the real evaluator + TLC trace validation"),
     "C12": ("model_checking",
